@@ -126,11 +126,126 @@ func genShardSubset(r *hx.Rand, n int) []int {
 	}
 }
 
+// exactPred selects exactly one series of a measurement: every known tag key is pinned to the
+// series' value, or to the empty string when the series does not have the key.
+func exactPred(s Series) *Pred {
+	var p *Pred
+	for _, k := range uKeys {
+		leaf := &Pred{T: "eq", K: k, V: s.Tag(k)}
+		if p == nil {
+			p = leaf
+		} else {
+			p = &Pred{T: "and", L: p, R: leaf}
+		}
+	}
+	return p
+}
+
+func churnQueries(r *hx.Rand, d *Desc, m string) []Op {
+	qs := []Query{{Kind: "names"}, {Kind: "series", M: m}, {Kind: "tagkeys", M: m}, {Kind: "card"},
+		{Kind: "tagvals", M: m, K: uKeys[r.Intn(len(uKeys))]}, {Kind: "tagvals", M: m, K: "host"},
+		{Kind: "names", Cond: genLeaf(r)}, {Kind: "series", M: m, Cond: genLeaf(r)}, {Kind: "sfile"},
+		{Kind: "shseries", Sh: 1 + r.Intn(d.NShards), M: m}}
+	n := 3 + r.Intn(3)
+	var out []Op
+	for i := 0; i < 4; i++ { // the four listings that show a vanished or lingering series directly
+		q := qs[i]
+		out = append(out, Op{Op: "query", Q: &q})
+	}
+	for i := 0; i < n-3; i++ {
+		q := qs[4+r.Intn(len(qs)-4)]
+		out = append(out, Op{Op: "query", Q: &q})
+	}
+	return out
+}
+
+// genChurn: per measurement, rounds of write-some / drop-one-old / write-new / drop-another-old
+// without a reopen in between; every drop is a DELETE of a single series that pre-dates the
+// previous drop; listings are compared after every step.
+func genChurn(r *hx.Rand, d *Desc) {
+	m := uMeas[r.Intn(2)]
+	other := uMeas[2+r.Intn(2)]
+	sh := 1 + r.Intn(d.NShards)
+	all := make([]int, d.NShards)
+	for i := range all {
+		all[i] = i + 1
+	}
+	seen := map[string]bool{}
+	var live []Series // oldest first
+	fresh := func() Series {
+		for {
+			s := genSeries(r)
+			s.M = m
+			if !seen[s.Key()] {
+				seen[s.Key()] = true
+				return s
+			}
+		}
+	}
+	step := func(op Op) {
+		d.Ops = append(d.Ops, op)
+		d.Ops = append(d.Ops, churnQueries(r, d, m)...)
+	}
+	write := func(n int) {
+		op := Op{Op: "write", Sh: sh}
+		for j := 0; j < n; j++ {
+			s := fresh()
+			live = append(live, s)
+			op.Series = append(op.Series, s)
+		}
+		if r.Chance(30) {
+			op.Series = append(op.Series, mkS(other, "host", "a"))
+		}
+		step(op)
+	}
+	write(2 + r.Intn(2))
+	rounds := 2 + r.Intn(3)
+	for k := 0; k < rounds && len(live) > 0; k++ {
+		// drop the oldest live series (it pre-dates the previous drop), or sometimes the second oldest
+		i := 0
+		if len(live) > 2 && r.Chance(25) {
+			i = 1
+		}
+		victim := live[i]
+		live = append(live[:i:i], live[i+1:]...)
+		shs := all
+		if d.NShards > 1 && r.Chance(30) {
+			shs = []int{sh}
+		}
+		step(Op{Op: "delete", Shards: shs, From: []string{m}, Cond: exactPred(victim)})
+		if r.Chance(25) {
+			step(Op{Op: "compact"})
+		}
+		if r.Chance(10) {
+			step(Op{Op: "sfcompact"})
+		}
+		write(1 + r.Intn(2))
+		if r.Chance(20) {
+			step(Op{Op: "snapshot", Sh: sh})
+		}
+	}
+	// finally empty the measurement series by series, oldest first
+	if r.Chance(40) {
+		for len(live) > 0 {
+			victim := live[0]
+			live = live[1:]
+			step(Op{Op: "delete", Shards: all, From: []string{m}, Cond: exactPred(victim)})
+		}
+		write(1)
+	}
+}
+
 func genHistory(r *hx.Rand, tier string) *Desc {
 	d := &Desc{NShards: 1 + r.Intn(2), PartN: []int{1, 1, 2, 8}[r.Intn(4)], LogSize: []int{1, 1, 200, 1 << 20}[r.Intn(4)],
 		SfThresh: []int{0, 1, 2, 4}[r.Intn(4)], Cache: []int{0, 100}[r.Intn(2)]}
 	if r.Chance(10) {
 		d.NShards = 3
+	}
+	if r.Chance(35) {
+		genChurn(r, d)
+		if r.Chance(50) {
+			return d
+		}
 	}
 	nops := 4 + r.Intn(10)
 	if tier == "thorough" {
@@ -524,6 +639,14 @@ func designed() []*Desc {
 		add(2, pn, ls, sft, ch, w(1, ca), compact, w(1, cb), compact, w(1, cc), compact, del([]int{1}, []string{"cpu"}, &Pred{T: "re", K: "host", V: "^(a|b)$"}),
 			compact, w(1, ca), compact, w(2, cb, ma), compact, battery(2, "cpu"), sfc, reopen, battery(2, "cpu"),
 			one(Op{Op: "dropm", M: "cpu"}), compact, reopen, battery(2, "cpu", "mem"))
+		// series a,b; drop a; write c; drop b; write d; drop c: every series written after a drop must survive
+		// the drop of an older one (inmem Rebuild must re-point the surviving series objects)
+		{
+			ha, hb, hc, hd := mkS("cpu", "host", "a"), mkS("cpu", "host", "b"), mkS("cpu", "host", "c", "region", "x"), mkS("cpu", "dc", "y")
+			add(1, pn, ls, sft, ch, w(1, ha, hb), battery(1, "cpu"), del([]int{1}, []string{"cpu"}, exactPred(ha)), battery(1, "cpu"),
+				w(1, hc), battery(1, "cpu"), del([]int{1}, []string{"cpu"}, exactPred(hb)), battery(1, "cpu"),
+				w(1, hd), battery(1, "cpu"), del([]int{1}, []string{"cpu"}, exactPred(hc)), battery(1, "cpu"))
+		}
 		// snapshot then delete: keys in TSM files instead of the cache
 		add(2, pn, ls, sft, ch, w(1, ca, cb, ma), one(Op{Op: "snapshot", Sh: 1}), w(2, ca), del([]int{1, 2}, []string{"cpu"}, &Pred{T: "neq", K: "host", V: "b"}),
 			battery(2, "cpu"), reopen, battery(2, "cpu"))
